@@ -167,13 +167,24 @@ def compare(beh, obs):
         if st:
             if st["outside"]:
                 diffs.append((i, "strace-outside", [], st["outside"]))
-            if not st["stop_before_first_mutation"]:
-                diffs.append((i, "strace-stop-order", True, False))
-            if not st["start_after_last_mutation"]:
-                diffs.append((i, "strace-start-order", True, False))
+            if len(st["w"]) == len(e["calls"]) and st["w"] != [cl["w"] for cl in e["calls"]]:
+                diffs.append((i, "strace-write-order", [cl["w"] for cl in e["calls"]], st["w"]))
+            elif (st["mutations"] > 0) != e["wrote"]:
+                diffs.append((i, "strace-wrote", e["wrote"], st["mutations"] > 0))
         if diffs and diffs[-1][0] == i:
             break           # states after the first divergent command are not comparable
     return diffs
+
+
+def written_flags(o, pre_sys):
+    """(w flag of every systemctl call, wrote) for one observed command: from strace when the command was traced
+    (a successful write-open / unlink / rename of a system location precedes the call), else from the stand-in's
+    snapshots (weaker: cannot see a rewrite with identical bytes)"""
+    st = o.get("strace")
+    if st and len(st.get("w", [])) == len(o["calls"]):
+        return list(st["w"]), st["mutations"] > 0
+    w = [cl["s"] != pre_sys for cl in o["calls"]]
+    return w, (o["sys"] != pre_sys or any(w))
 
 
 def rows_of(beh, obs):
@@ -182,15 +193,18 @@ def rows_of(beh, obs):
     svc = beh["init"]["svc"]
     rows = [{"e": "reset", "sys": io["sys"], "bak": io["bak"], "bdir": io["bdir"], "pkg": io["pkg"], "rest": io["rest"],
              "svc": svc}]
+    pre_sys = io["sys"]
     for o in obs["steps"]:
         svc = svc_after(svc, o["calls"])
         rest = o["rest"]
         st = o.get("strace")
         if st and st["outside"] and rest == "r0":
             rest = "changed:strace:" + ",".join(st["outside"][:4])
+        w, wrote = written_flags(o, pre_sys)
         rows.append({"e": "cmd", "c": o["c"], "res": "ok" if o["exit"] == 0 else "fail", "sys": o["sys"], "bak": o["bak"],
-                     "bdir": o["bdir"], "pkg": o["pkg"], "rest": rest, "svc": svc,
-                     "calls": [{"v": cl["v"], "s": cl["s"]} for cl in o["calls"]]})
+                     "bdir": o["bdir"], "pkg": o["pkg"], "rest": rest, "svc": svc, "wrote": wrote,
+                     "calls": [{"v": cl["v"], "s": cl["s"], "w": wk} for cl, wk in zip(o["calls"], w)]})
+        pre_sys = o["sys"]
     return rows
 
 
@@ -404,6 +418,19 @@ def _run(c):
     c.extra["traced_with_strace"] = len(traced_ids)
     c.extra["not_executable_behaviours"] = {"count": skipped, "why": "contain `restore` without backup deletion, "
                                             "which no command line can request"} if skipped else {"count": 0}
+    # outside the statement (recorded, modelled and compared, not judged): a backup taken while the unit file was
+    # not installed (after `uninstall service`) makes a later restore copy three files, fail on the missing unit
+    # (exit 1) and leave the service stopped
+    part = [(b, observed[b["id"]]) for b in chosen if any(s["res"] == "fail" for s in b["steps"])]
+    if part:
+        b, o = min(part, key=lambda x: [s["res"] for s in x[0]["steps"]].index("fail"))
+        k = [s["res"] for s in b["steps"]].index("fail")
+        c.extra["partial_state_restore_note"] = {
+            "behaviours": len(part), "example": b["cmds"][:k + 1], "from": {x: b["init"][x]["exe"] for x in ("sys", "bak", "pkg")},
+            "observed": {"exit": o["steps"][k]["exit"], "sys": o["steps"][k]["sys"], "calls": [cl["v"] for cl in o["steps"][k]["calls"]]},
+            "note": "restore from a backup without unit file exits 1 after replacing three files and never starts the "
+                    "service; the model predicts exactly this and the statement (a version installed / nothing installed) "
+                    "does not cover it"}
     round_trips = sum(1 for b in chosen if any(s["chk"] for s in b["steps"]))
     c.extra["behaviours_closing_a_round_trip"] = round_trips
     if round_trips == 0:
